@@ -8,6 +8,11 @@ runs the property's quick check against it, and stores the shrunk failing tape w
 the pinned name.  It then verifies: the replay fails on the pre-fix tree and passes on /repo.
 
    ./regen_replays.py [PROP ...]
+
+Not covered: a second pinned replay of the same fix (replays/C19/raw-login-challenge-minus-1-overflows.tape).  The replay
+tier reports the first pinned case that fails, so the search for the second signature never starts; re-derive it with
+`VERIF_REPO=<pre-fix tree> ./trial.sh c19 C19 <seed> 60000 100` for a few seeds until the log shows "- 1 cannot be
+represented" and copy that worker's last_case.tape.
 """
 import json, os, subprocess, sys, shutil, tempfile, glob
 
